@@ -17,6 +17,33 @@ SAMPLE_FAULTS = {
 BEADS_FAULTS = {'file_not_found': 'not found', 'too_few_events': 'lower than 400', 'gate_fraction': 'gate fraction', 'unequal_mef': 'same number'}
 
 
+FAULT_OF_MESSAGE = [('not found', 'fileNotFound'), ('lower than 400', 'tooFewEvents'), ('gate fraction', 'gateFraction'), ('not recognized', 'unitsNotRecognized'),
+                    ('not available', 'mefNotAvailable'), ('no standard curve', 'noCurveForChannel'), ('Instruments for', 'otherInstrument'),
+                    ('Amplification type', 'amplificationType'), ('Detector voltage', 'detectorVoltage')]
+FILES = {'s0.fcs': 600, 's1.fcs': 600, 'nope.fcs': None, 'small.fcs': 120, 'volt.fcs': 600, 'lin.fcs': 600}
+UNIT_CELLS = [None, None, 'MEF', 'mef', 'Mef', 'a.u.', 'AU', 'RFI', 'rfi', 'Channel', 'furlongs', 'MEFL', '']
+
+
+def fault_of(msg):
+    for frag, name in FAULT_OF_MESSAGE:
+        if frag in msg:
+            return name
+    return 'other:' + msg[:60]
+
+
+def row_facts(spec):
+    """what the harness knows about a generated row, in the vocabulary of the model's decision table"""
+    chans = []
+    for c in ('FL1', 'FL2', 'FL3'):
+        u = spec['units'].get(c)
+        if u is None:
+            continue
+        chans.append({'units': u, 'fxn': spec['beads'] in ('B1', 'BI2'), 'same_inst': spec['beads'] != 'BI2',
+                      'has_mef': spec['beads'] == 'B1' and c in ('FL1', 'FL2'), 'amp': spec['file'] != 'lin.fcs', 'volt': spec['file'] != 'volt.fcs'})
+    n = FILES[spec['file']]
+    return {'file_found': n is not None, 'n_events': n or 0, 'beads_table': True, 'gate_ok': spec['gate'] == 'ok', 'channels': chans}
+
+
 class Setup:
     """one experiment: files, a processed beads table, instruments table"""
 
@@ -122,6 +149,14 @@ class Prop(common.PropertyCheck):
             n = rng.randrange(2, 6)
             rows = [rng.choice(kinds + ['ok', 'ok']) for _ in range(n)]
             yield {'k': 'table', 'rows': rows}
+        # rows with several simultaneous faults: which one is reported is decided by the model's decision table
+        for _ in range(self.budget(6, 80)):
+            rows = []
+            for _ in range(rng.randrange(2, 6)):
+                units = {c: rng.choice(UNIT_CELLS) for c in ('FL1', 'FL2', 'FL3')}
+                rows.append({'file': rng.choice(['s0.fcs', 's0.fcs', 's1.fcs', 'nope.fcs', 'small.fcs', 'volt.fcs', 'lin.fcs']),
+                             'beads': rng.choice(['B1', 'B1', 'BNOMEF', 'BFAIL', 'BI2']), 'units': units, 'gate': rng.choice(['ok', 'ok', 'bad'])})
+            yield {'k': 'combo', 'rows': rows}
 
     def single(self, s, idx):
         if idx not in s.single_cache:
@@ -157,6 +192,12 @@ class Prop(common.PropertyCheck):
                     out['kinds'].append('fault:' + str(v) if isinstance(v, FlowCal.excel_ui.ExcelUIException) else 'ok')
                 out['g_same'] = fpm.sample_fp(bs['G1'])['array'] == fpm.sample_fp(bs['G2'])['array']
                 return out
+            if case['k'] == 'combo':
+                rows = [excelgen.sample_row('R%d' % i, 'FC001', r['file'], {c: u for c, u in r['units'].items() if u is not None}, r['beads'],
+                                            gate_fraction=0.85 if r['gate'] == 'ok' else 1.5) for i, r in enumerate(case['rows'])]
+                st, res = s.process(rows)
+                return {'ids': list(res.keys()),
+                        'faults': [fault_of(str(v)) if isinstance(v, FlowCal.excel_ui.ExcelUIException) else 'none' for v in res.values()]}
             rows = []
             hidx = 0
             for i, kind in enumerate(case['rows']):
@@ -216,6 +257,17 @@ class Prop(common.PropertyCheck):
         rows = case['rows']
         if impl['ids'] != ['R%d' % i for i in range(len(rows))]:
             return 'results are not keyed by row identifier in table order: %s' % impl['ids']
+        if case['k'] == 'combo':
+            for i, (r, f) in enumerate(zip(rows, impl['faults'])):
+                facts = row_facts(r)
+                healthy = facts['file_found'] and facts['n_events'] >= 400 and facts['gate_ok'] and all(
+                    c['units'].lower() in ('channel', 'rfi', 'a.u.', 'au') or (c['units'].lower() == 'mef' and c['fxn'] and c['same_inst'] and c['has_mef']
+                                                                                and c['amp'] and c['volt']) for c in facts['channels'])
+                if healthy and f != 'none':
+                    return 'healthy row %d (%s) reported %s' % (i, r, f)
+                if not healthy and (f == 'none' or f.startswith('other:')):
+                    return 'row %d (%s) has a documented fault but reported %s' % (i, r, f)
+            return None
         for i, (kind, k) in enumerate(zip(rows, impl['kinds'])):
             note = impl['notes'][i]
             if kind == 'ok':
@@ -235,6 +287,8 @@ class Prop(common.PropertyCheck):
         return None
 
     def model_request(self, case, impl):
+        if case['k'] == 'combo':
+            return {'op': 'row_faults', 'rows': [row_facts(r) for r in case['rows']]}
         if case['k'] != 'table':
             return None
         return {'op': 'process_table', 'rows': [['R%d' % i, 'ok' if k == 'ok' else 'fault:' + k] for i, k in enumerate(case['rows'])]}
@@ -244,18 +298,22 @@ class Prop(common.PropertyCheck):
             return 'driver: ' + model['driver_error']
         if 'aborted' in impl or model.get('aborted'):
             return None if (('aborted' in impl) == bool(model.get('aborted'))) else 'abort: impl %s vs model %s' % (impl.get('aborted'), model.get('aborted'))
+        if case['k'] == 'combo':
+            return None if model.get('faults') == impl['faults'] else 'fault decision table: model %s vs impl %s for rows %s' % (model.get('faults'), impl['faults'], case['rows'])
         if model['ids'] != impl['ids'] or model['kinds'] != [('ok' if k == 'ok' else 'fault') for k in impl['kinds']]:
             return 'model %s %s vs impl %s %s' % (model['ids'], model['kinds'], impl['ids'], impl['kinds'])
         return None
 
     def shrink_candidates(self, case):
-        if case['k'] == 'table':
+        if case['k'] in ('table', 'combo'):
             r = case['rows']
             for i in range(len(r)):
                 if len(r) > 1:
                     yield dict(case, rows=r[:i] + r[i + 1:])
 
     def nontrivial_key(self, case, impl):
+        if case['k'] == 'combo':
+            return ('combo', tuple(impl.get('faults', ())))
         if case['k'] != 'table':
             return (case['k'],)
         if all(k == 'ok' for k in case['rows']):
